@@ -177,6 +177,36 @@ func (r *raftNode) getCommitIndex() uint64 {
 	return idx
 }
 
+// hasCommandAfterSnapshot indicates if the log store holds a command entry
+// behind the latest snapshot, i.e. an entry the FSM has yet to apply.
+func (r *raftNode) hasCommandAfterSnapshot() (bool, error) {
+	snapshotIndex, err := strconv.ParseUint(r.Stats()["last_snapshot_index"], 10, 64)
+	if err != nil {
+		panic(err)
+	}
+	firstIndex, err := r.store.FirstIndex()
+	if err != nil {
+		return false, err
+	}
+	lastIndex, err := r.store.LastIndex()
+	if err != nil {
+		return false, err
+	}
+	if firstIndex <= snapshotIndex {
+		firstIndex = snapshotIndex + 1
+	}
+	log := &raft.Log{}
+	for i := firstIndex; i <= lastIndex; i++ {
+		if err := r.store.GetLog(i, log); err != nil {
+			return false, err
+		}
+		if log.Type == raft.LogCommand {
+			return true, nil
+		}
+	}
+	return false, nil
+}
+
 // shutdown attempts to stop the Raft node.
 func (r *raftNode) shutdown() error {
 	r.Lock()
